@@ -40,6 +40,8 @@ def judge_c01(t, ex, witness, extra):
         why = forest.state_invariant(ex.post, ex.labels)
     if why is None and "AssertionError" in ex.mro:
         why = "internal assertion fired: %r" % (ex.exc,)
+    if why is None and ex.outcome == "CaseTimeout":
+        why = "the call did not terminate (cyclic links?)"
     if why is not None:
         t.violation("C01: " + why, forest.case_of(ex, witness, why))
     if ex.outcome != "ok":
